@@ -1081,6 +1081,9 @@ class Engine:
             verts = set(nh.real.vertices())
         except Exception as e:
             return "reading the derived automaton raised %r" % (e,)
+        if not all(_hashable(e) for e in edges):
+            return "the derived automaton's label view contains an edge that is not (vertex, vertex, label): %r" % (
+                [e for e in edges if not _hashable(e)][:2],)
         if set(edges) != nh.E:
             miss = sorted(nh.E - set(edges), key=ekey)[:3]
             extra = sorted(set(edges) - nh.E, key=ekey)[:3]
